@@ -228,7 +228,7 @@ bool FIXReader::read(f8String& to)	// read a complete FIX message
 		unsigned result;
 		if ((result = MessageBase::extract_element(to.data(), static_cast<unsigned>(to.size()), tag, val)))
 		{
-			if (*tag != '8')
+			if (*tag != '8' || tag[1])
 				throw IllegalMessage(to, FILE_LINE);
 
 			if (_session.get_ctx()._beginStr.compare(val))	// invalid FIX version
@@ -236,7 +236,7 @@ bool FIXReader::read(f8String& to)	// read a complete FIX message
 
 			if ((result = MessageBase::extract_element(to.data() + result, static_cast<unsigned>(to.size()) - result, tag, val)))
 			{
-				if (*tag != '9')
+				if (*tag != '9' || tag[1])
 					throw IllegalMessage(to, FILE_LINE);
 
 				// BodyLength is a plain decimal number; more digits than the limit has cannot be in range (and would wrap)
